@@ -25,7 +25,8 @@ VARIABLES tree, exp
 T(n, al, deps, calls) == [n |-> n, al |-> al, deps |-> deps, calls |-> calls]
 FileTasks == [
   R |-> << T("r1", {}, <<>>, <<>>), T("r2", {}, <<"r1">>, <<>>) >>,
-  A |-> << T("t1", {"al"}, <<>>, <<>>), T("t2", {}, <<"t1">>, <<"t1", ":r1">>), T("default", {}, <<>>, <<>>) >>,
+  A |-> << T("t1", {"al"}, <<>>, <<>>), T("t2", {}, <<"t1">>, <<"t1", ":r1">>), T("default", {}, <<>>, <<>>),
+          T("t4", {}, <<>>, <<>>) >>,
   B |-> << T("t1", {}, <<>>, <<>>), T("t3", {}, <<"t1">>, <<>>) >>,
   C |-> << T("c1", {}, <<>>, <<":r1">>), T("default", {}, <<>>, <<>>) >> ]
 
